@@ -83,6 +83,17 @@ class Report:
         self.sites[rule] = self.sites.get(rule, 0) + 1
         return ok
 
+    def run(self, fn, *args, **kw):
+        """run one sub-check; an idiom it cannot handle becomes an UNDECIDED obligation instead of aborting the driver"""
+        try:
+            return fn(self, *args, **kw)
+        except AnalysisError as exc:
+            self.ob("-", "ENGINE", f"{getattr(fn, '__module__', '?').split('.')[-1]}:{fn.__name__}", None, fn.__name__, f"sub-check could not decide: {exc}")
+        except (IndexError, KeyError, AttributeError, TypeError, ValueError) as exc:
+            self.ob("-", "ENGINE", f"{getattr(fn, '__module__', '?').split('.')[-1]}:{fn.__name__}", None, fn.__name__,
+                    f"sub-check met a code shape it does not model ({type(exc).__name__}: {exc})")
+        return None
+
     def need(self, rule: str, found: int, expected_min: int, what: str):
         """Vacuity guard: fewer instances than confirmed by hand -> analysis-broken."""
         if found < expected_min:
@@ -116,7 +127,7 @@ class Report:
             )
         replay_dir = os.path.join(VERIF, "evidence", "replay")
         replays = []
-        if violations and not undecided:
+        if violations:
             if self.write_replay:
                 os.makedirs(replay_dir, exist_ok=True)
             for i, o in enumerate(violations):
@@ -132,12 +143,15 @@ class Report:
                 out.append(f"VIOLATION property={self.prop} replay={path}")
             code = 1
         if undecided:
+            # a positive finding stands on its own; only a run with nothing but undecided obligations is analysis-broken
+            tag = "ANALYSIS-NOTE" if violations else "ANALYSIS-ERROR"
             for o in undecided:
                 out.append(
-                    f"ANALYSIS-ERROR property={self.prop} {o['rule']} {o['obligation']} UNDECIDED at "
+                    f"{tag} property={self.prop} {o['rule']} {o['obligation']} UNDECIDED at "
                     f"{o['where']}: {o['what']} :: {o['construct']}"
                 )
-            code = 2
+            if not violations:
+                code = 2
         for n in self.notes:
             out.append(f"NOTE: {n}")
         discharged = sum(1 for o in self.obligations if o["status"] == "HOLDS")
